@@ -1,2 +1,8 @@
 import P2P.Props.C06
-#print axioms P2P.Props.C06.placeholder
+#print axioms P2P.Props.C06.never_unsupported_residue
+#print axioms P2P.Props.C06.one_decision
+#print axioms P2P.Props.C06.group_charge_antitone
+#print axioms P2P.Props.C06.termini_charge_antitone
+#print axioms P2P.Props.C06.total_charge_antitone
+#print axioms P2P.Props.C06.side_keys_reach_groups
+#print axioms P2P.Props.C06.termini_rows_dropped_witness
